@@ -23,6 +23,8 @@ mod value;
 mod context;
 mod descriptor;
 mod init;
+#[cfg(ashyanspada_expression_engine_rs_verif)]
+pub mod verif_hooks;
 use std::sync::Arc;
 
 /// ## Usage
